@@ -7,8 +7,16 @@
 //                  sqlite_sequence of Track, and the full rows (v1.rows format) of every track with a path.
 //   lib1.tobs      snapshot(), filename(), file_extension() of every track of tracks() and of every handle held.
 //   lib1.pragmas   qualified PRAGMA music./perfdata. foreign_key_check and integrity_check (supporting checks).
+//   lib1.fk        PRAGMA music.foreign_key_check alone (cheap: asked after EVERY call).
 //   lib1.bk        row counts of the bookkeeping tables no public call reads (ChangeLog, Pack) — compared around
 //                  observers only.
+//   lib1.plantrefs <trackvar>   (not a library call) what Engine DJ writes when a track is put on a playlist, a history
+//                  list, the prepare list and is a copied track: through the RAW connection, the parent rows Playlist /
+//                  Historylist / Preparelist (id 1; tables before 1.9.1, views over List with INSTEAD OF triggers from
+//                  1.9.1 — inserted through the name the schema provides, column lists from PRAGMA table_info) and one
+//                  row each in PlaylistTrackList, HistorylistTrackList, PreparelistTrackList, CopiedTrack naming the
+//                  track's id (a table that already has a row of the track is left alone).  Only for tracks that
+//                  exist.  Answers `planted fk <PRAGMA music.foreign_key_check>`.
 //   lib1.mark      remember the uuids of the two Information rows (call right after create / load).
 #include <algorithm>
 #include <map>
@@ -259,6 +267,12 @@ DJV_CMD(lib1_pragmas, "lib1.pragmas")
            " icp " + raw_query(h, "PRAGMA perfdata.integrity_check");
 }
 
+DJV_CMD(lib1_fk, "lib1.fk")
+{
+    if (is_v2()) throw bad_command{"lib1.fk on a 2.x library"};
+    return "fk " + raw_query(main_handle(), "PRAGMA music.foreign_key_check");
+}
+
 DJV_CMD(lib1_bk, "lib1.bk")
 {
     if (is_v2()) throw bad_command{"lib1.bk on a 2.x library"};
@@ -270,4 +284,95 @@ DJV_CMD(lib1_bk, "lib1.bk")
                 o += std::string(o.empty() ? "" : " ") + db + "." + t + "=" +
                      raw_query(h, std::string("SELECT COUNT(*), IFNULL(MAX(id), 0) FROM ") + db + "." + t);
     return o.empty() ? "-" : o;
+}
+
+namespace
+{
+std::vector<std::string> columns_of(sqlite3* h, const std::string& name)
+{
+    std::vector<std::string> out;
+    sqlite3_stmt* st = nullptr;
+    std::string sql = "PRAGMA music.table_info(" + name + ")";
+    if (sqlite3_prepare_v2(h, sql.c_str(), -1, &st, nullptr) != SQLITE_OK) throw bad_command{"table_info " + name};
+    while (sqlite3_step(st) == SQLITE_ROW)
+    {
+        const char* p = (const char*)sqlite3_column_text(st, 1);
+        out.push_back(p ? std::string(p) : std::string());
+    }
+    sqlite3_finalize(st);
+    if (out.empty()) throw bad_command{"no columns: " + name};
+    return out;
+}
+
+void exec_raw(sqlite3* h, const std::string& sql)
+{
+    char* err = nullptr;
+    if (sqlite3_exec(h, sql.c_str(), nullptr, nullptr, &err) != SQLITE_OK)
+    {
+        std::string m = err ? err : "";
+        sqlite3_free(err);
+        throw bad_command{"plantrefs: " + m + " in " + sql};
+    }
+}
+
+long long count_raw(sqlite3* h, const std::string& sql)
+{
+    sqlite3_stmt* st = nullptr;
+    if (sqlite3_prepare_v2(h, sql.c_str(), -1, &st, nullptr) != SQLITE_OK) throw bad_command{"plantrefs: prepare " + sql};
+    long long n = -1;
+    if (sqlite3_step(st) == SQLITE_ROW) n = sqlite3_column_int64(st, 0);
+    sqlite3_finalize(st);
+    return n;
+}
+
+// INSERT INTO music.<name> (<all columns of table_info>) VALUES (<value(column)>)
+template <class F>
+void insert_row(sqlite3* h, const std::string& name, F value)
+{
+    std::string cols, vals;
+    for (auto& c : columns_of(h, name))
+    {
+        cols += (cols.empty() ? "" : ", ") + ("[" + c + "]");
+        vals += (vals.empty() ? "" : ", ") + value(c);
+    }
+    exec_raw(h, "INSERT INTO music." + name + " (" + cols + ") VALUES (" + vals + ")");
+}
+}  // namespace
+
+DJV_CMD(lib1_plantrefs, "lib1.plantrefs")
+{
+    if (is_v2()) throw bad_command{"lib1.plantrefs on a 2.x library"};
+    auto& t = TR(a.at(1));
+    if (!t.is_valid()) return "skipped";
+    const std::string id = std::to_string((long long)t.id());
+    // `lib1.plantrefs <t> nulls`: the same rows with NULL in the nullable columns trackIdInOriginDatabase / databaseUuid
+    // (candidate defect parked behind _lib1.PLANT_NULL_COLUMNS, see design/Lib1.md)
+    const bool nulls = a.size() > 2 && a.at(2) == "nulls";
+    auto* h = main_handle();
+    auto us = text_col(h, "SELECT uuid FROM music.Information");
+    const std::string uuid = "'" + (us.empty() ? std::string("u") : us[0]) + "'";
+    const char* kinds[3][2] = {{"Playlist", "PlaylistTrackList"},
+                               {"Historylist", "HistorylistTrackList"},
+                               {"Preparelist", "PreparelistTrackList"}};
+    for (auto& k : kinds)
+    {
+        const std::string parent = k[0], list = k[1];
+        if (count_raw(h, "SELECT COUNT(*) FROM music." + parent + " WHERE id = 1") == 0)
+            insert_row(h, parent, [&](const std::string& c) {
+                return c == "id" ? std::string("1") : c == "title" ? "'Planted " + parent + "'" : std::string("0");
+            });
+        if (count_raw(h, "SELECT COUNT(*) FROM music." + list + " WHERE trackId = " + id) == 0)
+            insert_row(h, list, [&](const std::string& c) {
+                if (nulls && (c == "trackIdInOriginDatabase" || c == "databaseUuid")) return std::string("NULL");
+                if (c == "trackId" || c == "trackIdInOriginDatabase") return id;
+                if (c == "databaseUuid") return uuid;
+                return std::string("1");        // playlistId / historylistId (the parent planted above), trackNumber, date
+            });
+    }
+    if (count_raw(h, "SELECT COUNT(*) FROM music.CopiedTrack WHERE trackId = " + id) == 0)
+        insert_row(h, "CopiedTrack", [&](const std::string& c) {
+            if (c == "uuidOfSourceDatabase") return std::string("'00000000-0000-0000-0000-000000000001'");
+            return id;                          // trackId, idOfTrackInSourceDatabase
+        });
+    return "planted fk " + raw_query(h, "PRAGMA music.foreign_key_check");
 }
